@@ -189,6 +189,13 @@ class CallTimeout(BaseException):
     `except Exception` handlers that would otherwise swallow it and carry on)"""
 
 CALL_LIMIT_S = float(os.environ.get("VERIF_CALL_LIMIT_S", "12"))
+TIMEOUTS = {"seen": 0}
+
+def call_limit(base):
+    """the limit shrinks once calls have timed out (a tree on which calls hang would otherwise cost limit x cases): after 3
+    time-outs 2 s, after 25 a tenth of a second — by then the hang is established and reported"""
+    n = TIMEOUTS["seen"]
+    return base if n < 3 else (min(base, 2.0) if n < 25 else 0.1)
 
 def guard(f):
     """runs one call into the implementation; an exception becomes `!<TypeName>`; a call that does not return within
@@ -199,12 +206,13 @@ def guard(f):
         def onalarm(signum, frame):
             raise CallTimeout()
         old = signal.signal(signal.SIGALRM, onalarm)
-        prev = signal.setitimer(signal.ITIMER_REAL, CALL_LIMIT_S)
+        prev = signal.setitimer(signal.ITIMER_REAL, call_limit(CALL_LIMIT_S))
     try:
         return f()
     except RecursionError:
         raise
     except CallTimeout:
+        TIMEOUTS["seen"] += 1
         return "!Timeout"
     except Exception as e:  # noqa
         return exc_name(e)
